@@ -525,8 +525,11 @@ class JokerSamples:
                 )
                 t.meta["t_ref"] = t.meta["t0"]
 
-            if t.meta.get("t_ref", None) is not None:
-                t.meta["__t_ref_bmjd"] = t.meta.pop("t_ref").tcb.mjd
+            # a FITS header cannot hold a Time, and None would become an undefined
+            # "T_REF" card that breaks re-writing the samples after reading them back
+            t_ref = t.meta.pop("t_ref", None)
+            if t_ref is not None:
+                t.meta["__t_ref_bmjd"] = t_ref.tcb.mjd
 
             with warnings.catch_warnings():
                 warnings.simplefilter("ignore", category=fits.verify.VerifyWarning)
